@@ -3,6 +3,19 @@ import json, os, re, subprocess, sys
 import vlib
 
 
+def impl_model_checks(ctx):
+    """DownstreamImpl: the implementation-shaped model of downstream.go must be hang-free for the repaired design and
+    TLC must find the hang / silent exit / fall-out for every named defect (non-vacuity)."""
+    tier = "quick" if ctx.quick() else "thorough"
+    for cfg in ("DownstreamImpl_%s.cfg" % tier, "DownstreamImpl_%s_notry.cfg" % tier):
+        ctx.add_tlc(vlib.run_tlc(ctx, "lifecycle", "DownstreamImpl", cfg, timeout=1500))
+    for d in ("NoDeadlineCheck", "SilentExitInUpFilter", "StaleFlagAfterRetry"):
+        if vlib.run_tlc(ctx, "lifecycle", "DownstreamImpl", "DownstreamImpl_defect_%s.cfg" % d, expect_ok=False)["ok"]:
+            raise vlib.Inconclusive("DownstreamImpl does not reject defect " + d)
+    if vlib.run_tlc(ctx, "lifecycle", "DownstreamImpl", "DownstreamImpl_loop.cfg", expect_ok=False)["ok"]:
+        raise vlib.Inconclusive("DownstreamImpl does not show the task-loop fall-out for a small loop bound")
+
+
 def model_checks(ctx):
     r = vlib.run_tlc(ctx, "lifecycle", "RequestLifecycle", "RequestLifecycle.cfg")
     ctx.add_tlc(r)
